@@ -1,0 +1,30 @@
+//go:build verif
+// +build verif
+
+// Package verifexport re-exports packages under proc/internal to the verification
+// harness (/verif), which lives outside this module. Compiled only with -tags verif.
+package verifexport
+
+import (
+	"github.com/samaritan-proxy/samaritan/host"
+	"github.com/samaritan-proxy/samaritan/pb/config/service"
+	"github.com/samaritan-proxy/samaritan/proc/internal/hc"
+	"github.com/samaritan-proxy/samaritan/proc/internal/lb"
+)
+
+// Balancer is lb.Balancer.
+type Balancer = lb.Balancer
+
+// NewBalancer is lb.New.
+func NewBalancer(p service.LoadBalancePolicy) Balancer { return lb.New(p) }
+
+// SetRandInt replaces the balancers' random source.
+func SetRandInt(f func() int) { lb.VerifSetRandInt(f) }
+
+// Monitor is hc.Monitor.
+type Monitor = hc.Monitor
+
+// NewMonitor builds a health monitor with a scripted checker.
+func NewMonitor(rise, fall uint32, set *host.Set, check func(addr string) error) (*Monitor, error) {
+	return hc.VerifNewMonitor(rise, fall, set, check)
+}
